@@ -103,6 +103,11 @@ func C01(r *core.Run) int {
 	// CLI cross-check on a sample: same verdict and same bytes as vgen
 	cliN := map[bool]int{false: 40, true: 300}[r.Thorough()]
 	cliChecked, cliDiff := crossCheckCLI(r, outs, cliN)
+	// the same through --dir: a directory whose spec is refused makes the whole
+	// run an error (never a success that leaves broken or missing code behind)
+	if cli, err := r.BuildCLI(); err == nil {
+		cliChecked += c15DirMode(r, cli, outs)
+	}
 	var tl []string
 	for t := range tmplSeen {
 		tl = append(tl, t)
